@@ -67,11 +67,13 @@ class CheckResult:
         os.makedirs(EVIDENCE_DIR, exist_ok=True)
         wall = time.time() - self.t0
         replay_paths = []
+        replay_dir = REPLAY_DIR if not os.environ.get("ICV_NO_REPLAY") else os.path.join(
+            os.environ.get("TMPDIR", "/tmp"), "icv-replays-scratch")
         for v in self.violations[:20]:
-            os.makedirs(os.path.join(REPLAY_DIR, self.prop), exist_ok=True)
+            os.makedirs(os.path.join(replay_dir, self.prop), exist_ok=True)
             blob = json.dumps(v["replay"], sort_keys=True, default=str)
             h = hashlib.sha1(blob.encode()).hexdigest()[:12]
-            path = os.path.join(REPLAY_DIR, self.prop, h + ".json")
+            path = os.path.join(replay_dir, self.prop, h + ".json")
             with open(path, "w") as fh:
                 json.dump({"property": self.prop, "clause": v["clause"], "what": v["what"], "replay": v["replay"]},
                           fh, indent=1, default=str)
